@@ -298,6 +298,65 @@ def run(ctx):
                 tindex[cur][1] = i
             cur = ln["h"]
             tindex[cur] = [i, len(lines)]
+    # 2b. a request that came back OK with an empty reply (status PANIC: the handler's panic was swallowed) or a history
+    # during which the server logged a recovered panic.  Not an event-stream matter by itself: (i) a panic whose text
+    # matches the signature of an OPEN finding (of any property) is that known finding; (ii) otherwise the same
+    # history is re-run RERUNS times: it is a VIOLATION if the panic shows again at least once (a change that makes
+    # panics likely is caught), else it is recorded as an unreproduced transient.  Either way the history is not
+    # judged as an event history (its request statuses are unknown).
+    RERUNS = 20
+    panicky = sorted({h for h in tindex if any(x["ev"] == "ret" and x.get("st") == "PANIC" for x in lines[tindex[h][0]:tindex[h][1]])} | set(notes))
+    transients, known_panics = [], []
+    for h in panicky:
+        texts = notes.get(h, [])
+        sig = None
+        for f in ctx.findings:
+            if f.get("status") == "open" and f.get("panic_signature") and any(f["panic_signature"] in t for t in texts):
+                sig = f
+                break
+        a, b = index[h]
+        if sig is not None:
+            known_panics.append(h)
+            ctx.known_seen.setdefault(sig["id"], "history %d: a request was answered OK + empty after a recovered panic matching %r (finding of %s)" % (
+                h, sig["panic_signature"], sig.get("property")))
+            continue
+        again = 0
+        rs = []
+        for i in range(RERUNS):
+            rs += [dict(script[a], h=100000 + i)] + script[a + 1:b]
+        rsf, rtf = os.path.join(ctx.work, "rerun-%d.script" % h), os.path.join(ctx.work, "rerun-%d.trace" % h)
+        write_nd(rsf, rs)
+        try:
+            ctx.run_driver(binary, ["run", rsf, rtf], timeout=3000, env={"C19_SPIN": "200"})
+            for x in open(rtf):
+                o = json.loads(x)
+                if o["ev"] == "note" or (o["ev"] == "ret" and o.get("st") == "PANIC"):
+                    again += 1
+        except vlib.Inconclusive as ex:
+            if "panic:" in str(ex) or "fatal error:" in str(ex):
+                again += 1
+            else:
+                raise
+        if again:
+            ctx.deviation(None, "history %d: a request was answered OK + empty / the server recovered from a panic (%s), and it happened again in %d of %d "
+                                "re-runs of the same history" % (h, " ## ".join(texts)[:700] or "no panic text captured", again, RERUNS),
+                          dict(kind="history", h=h, script=script[a:b], trace=lines[tindex[h][0]:tindex[h][1]], panics=texts))
+        else:
+            transients.append(dict(h=h, panics=[t[:600] for t in texts], script=script[a:b]))
+    ctx.extra["unreproduced_transient_panics"] = transients
+    ctx.extra["histories_with_known_panic"] = len(known_panics)
+    if panicky:
+        drop = set(panicky)
+        lines = [ln for h in sorted(tindex) if h not in drop for ln in lines[tindex[h][0]:tindex[h][1]]]
+        index = {h: v for h, v in index.items() if h not in drop}
+        tindex, cur = {}, None
+        for i, ln in enumerate(lines):
+            if ln["ev"] == "reset":
+                if cur is not None:
+                    tindex[cur][1] = i
+                cur = ln["h"]
+                tindex[cur] = [i, len(lines)]
+
     nsend = sum(1 for x in lines if x["ev"] == "sb")
     ctx.extra["histories"] = len(index)
     ctx.extra["trace_lines"] = len(lines)
